@@ -88,3 +88,9 @@ Proof. exact rowmin_same_pointer. Qed.
 From SymfcG Require Import ShapesCombos.
 Theorem c01_recorded_sources_in_force : ShapesCombos_as_recorded = true.
 Proof. repeat split; reflexivity. Qed.
+
+(** The remaining source this property rests on is the recorded one (the basis-set classes of orders 2-4; the orbit routines): whole-function match,
+    regenerated on every run (closes the gap between "the expected statements are present" and "nothing else was added"). *)
+From SymfcG Require Import ShapesBasis ShapesPerm.
+Theorem c01_recorded_sources2_in_force : ShapesBasis_as_recorded = true /\ ShapesPerm_as_recorded = true.
+Proof. repeat split; reflexivity. Qed.
